@@ -16,6 +16,7 @@ import (
 	"os"
 	"sort"
 	"strings"
+	"sync"
 	"time"
 
 	"github.com/php-any/origami/data"
@@ -229,6 +230,15 @@ func runReal(seq []int) obs {
 
 // runWire serves the same handler over a real TCP connection (httptest.Server + net/http client):
 // what the client actually receives. Content-Length / framing mistakes only show here.
+var (
+	wireOnce    sync.Once
+	wireSrv     *httptest.Server
+	wireClient  *nh.Client
+	wireHandler func(w nh.ResponseWriter, r *nh.Request)
+	// requests whose connection could not be established even after retries: no verdict
+	wireInconclusive int
+)
+
 func runWire(seq []int) obs {
 	res, s := runner.RunKeep(script(seq), runner.Opts{Setup: func(vm data.VM) { ohttp.Load(vm) }})
 	defer s.Close()
@@ -240,16 +250,32 @@ func runWire(seq []int) obs {
 		return obs{Err: "handler closure not found"}
 	}
 	herr := ""
-	srv := httptest.NewServer(nh.HandlerFunc(func(w nh.ResponseWriter, r *nh.Request) {
+	// One listener per worker process for all sequences (a server per sequence runs the machine
+	// out of ephemeral ports in the thorough tier: "bind: address already in use" is the
+	// environment, not a verdict); the handler under test is swapped in for this request.
+	wireOnce.Do(func() {
+		wireSrv = httptest.NewServer(nh.HandlerFunc(func(w nh.ResponseWriter, r *nh.Request) { wireHandler(w, r) }))
+		wireClient = &nh.Client{CheckRedirect: func(*nh.Request, []*nh.Request) error { return nh.ErrUseLastResponse }}
+	})
+	wireHandler = func(w nh.ResponseWriter, r *nh.Request) {
 		g := runner.Guard(func() { ohttp.Handler{Value: fv.Value, Ctx: s.Ctx}.ServeHTTP(w, r) })
 		if g.Kind != "ok" {
 			herr = g.Kind + ":" + g.Class + ":" + g.Msg + g.PanicKey
 		}
-	}))
-	defer srv.Close()
-	client := &nh.Client{CheckRedirect: func(*nh.Request, []*nh.Request) error { return nh.ErrUseLastResponse }}
+	}
+	srv, client := wireSrv, wireClient
 	resp, err := client.Get(srv.URL + "/p")
+	for try := 0; err != nil && try < 5 && (strings.Contains(err.Error(), "dial tcp") || strings.Contains(err.Error(), "connect:")); try++ {
+		// the connection could not even be established (ports / descriptors exhausted): the
+		// environment, not the response under test
+		time.Sleep(300 * time.Millisecond)
+		resp, err = client.Get(srv.URL + "/p")
+	}
 	if err != nil {
+		if strings.Contains(err.Error(), "dial tcp") || strings.Contains(err.Error(), "connect:") {
+			wireInconclusive++
+			return obs{Err: "env: " + err.Error()}
+		}
 		return obs{Err: "client: " + err.Error()}
 	}
 	defer resp.Body.Close()
@@ -280,6 +306,9 @@ func compareWire(exp, got obs) string {
 		}
 		delete(exp.Headers, "Content-Type")
 		delete(got.Headers, "Content-Type")
+	}
+	if strings.HasPrefix(got.Err, "env: ") {
+		return "" // inconclusive (counted), never a verdict
 	}
 	if got.Err != "" {
 		return "wire-handler-error"
